@@ -181,6 +181,48 @@ def _chk_fix_weights_symmetric(args, res, old):
                 old["variant"], dw, _few_bins_per_chromosome(old))
 
 
+def _off_target_centre_set_by_empty_bins(old):
+    """Off-target bins are centred over all of them, bins without coverage (placeholder log2 -20) included
+    (center_all(skip_low=False)).  When such bins set that centre -- the median over chromosomes of the chromosome medians
+    is a placeholder value -- the centre cannot move with the covered bins when the sample is sequenced deeper."""
+    import numpy as np
+    d = old["antitarget"].data
+    if not len(d):
+        return False
+    null = ((d["log2"] < -15) | (d["depth"] == 0)).values
+    if not null.any():
+        return False
+
+    def centre(vals):
+        meds = [float(np.median(g)) for _c, g in vals.groupby(d["chromosome"].values, sort=False)]
+        return float(np.median(meds))
+    import pandas as pd
+    base = pd.Series(d["log2"].values)
+    moved = pd.Series(np.where(null, d["log2"].values, d["log2"].values + 1.0))
+    # every candidate grouping of chromosomes (all / autosomes only) must move by exactly the shift of the covered bins
+    auto = pd.Series(d["chromosome"].values).str.match(r"(chr)?\d+$").values
+    for sel in (np.ones(len(d), dtype=bool), auto):
+        if sel.any():
+            cb = [float(np.median(g)) for _c, g in pd.Series(base.values[sel]).groupby(d["chromosome"].values[sel], sort=False)]
+            cm = [float(np.median(g)) for _c, g in pd.Series(moved.values[sel]).groupby(d["chromosome"].values[sel], sort=False)]
+            if not abs((float(np.median(cm)) - float(np.median(cb))) - 1.0) <= 1e-9:
+                return True
+    return False
+
+
+def _chk_fix_empty_bins_anchor(args, res, old):
+    import numpy as np
+    if res["other"] is None or old["variant"] != "scaled" or not _off_target_centre_set_by_empty_bins(old):
+        return None
+    a, b = res["base"].data.reset_index(drop=True), res["other"].data.reset_index(drop=True)
+    if len(a) == len(b) and len(a) and "depth" in a:
+        cov = a.depth.values > 0
+        d = float(np.abs(a.log2.values - b.log2.values)[cov].max()) if cov.any() else 0.0
+        if not d <= 1e-9:
+            return ("a sample sequenced %g times deeper changes the log2 of covered bins by up to %r when off-target bins without "
+                    "coverage set the off-target centre" % (old.get("scale", float("nan")), d))
+
+
 def _chk_fix_weights_dead_class(args, res, old):
     import numpy as np
     nm = _class_without_usable_bin(old)
@@ -271,6 +313,8 @@ def _chk_fix(args, res, old):
         dw = float(np.abs(a.weight.values - b.weight.values).max()) if len(a) else 0.0
         if _few_bins_per_chromosome(old):
             dw = 0.0       # judged by its own clause (weights_when_residuals_are_exactly_symmetric)
+        if old["variant"] == "scaled" and _off_target_centre_set_by_empty_bins(old):
+            d = 0.0        # judged by its own clause (depth_invariance_when_empty_bins_set_the_off_target_centre)
         if not (d <= 1e-9 and dw <= 1e-9):
             return "%s inputs change the result: max |dlog2| = %r, max |dweight| = %r (corrections gc=%s edge=%s rmask=%s, %d antitarget bins)" % (
                 old["variant"], d, dw, old["do_gc"], old["do_edge"], old["do_rmask"], len(old["antitarget"]))
@@ -279,7 +323,8 @@ def _chk_fix(args, res, old):
 contract("cnvlib/fix.py::do_fix", params=dict(target=ObjT("CopyNumArray")), bounded=True, gen=_gen_fix, call=_call_fix,
          props=("C04",), checks=[("kept_bins_offsets_centring_weights_invariance", _chk_fix),
                                  ("weights_when_a_class_has_no_usable_bin", _chk_fix_weights_dead_class),
-                                 ("weights_when_residuals_are_exactly_symmetric", _chk_fix_weights_symmetric)])
+                                 ("weights_when_residuals_are_exactly_symmetric", _chk_fix_weights_symmetric),
+                                 ("depth_invariance_when_empty_bins_set_the_off_target_centre", _chk_fix_empty_bins_anchor)])
 
 
 # ----------------------------------------------------------------------------- errors
@@ -519,4 +564,39 @@ contract(
                "ref_matched = ref_labeled.reindex(index=ref_labeled.index)")],
     notes="pandas label lookup (set_index on the coordinate tuples, Index.duplicated, reindex(index=labels)) is modelled: a "
           "row of the result is the row whose label equals the requested one, all-missing where there is none",
+)
+
+
+# ----------------------------------------------------------------------------- deductive: apply_weights
+contract("cnvlib/descriptives.py::biweight_midvariance", params=dict(a=VecT(Real), initial=Lit(None), c=Lit(9.0), epsilon=Lit(1e-3)),
+         returns=NReal, trusted=True, requires=[],
+         ensures=[("nan_or_non_negative", "isnull(result) or val(result) >= 0"),
+                  ("a_number_for_data", "implies(len(a) >= 1, not isnull(result))")],
+         props=(), domain="skip",
+         notes="assumed at call sites: NaN only for an empty array (on_array), otherwise a non-negative number; its definition is "
+               "the business of the bounded C19 contract biweight_midvariance#rt")
+
+_AWB = ObjT("CopyNumArray", data=TabT(index="range", chromosome=CHROM, start=Int, end=Int, gene=GENE, log2=Real, depth=Real), meta=DictT())
+_AWR = ObjT("CopyNumArray", data=TabT(index="range", chromosome=CHROM, start=Int, end=Int, gene=GENE, log2=Real, spread=Real), meta=DictT())
+contract(
+    "cnvlib/fix.py::apply_weights",
+    params=dict(cnarr=_AWB, ref_matched=_AWR, log2_key=Lit("log2"), spread_key=Lit("spread")),
+    returns=ObjT("CopyNumArray"),
+    requires=["len(cnarr.data) >= 1", "len(cnarr.data) == len(ref_matched.data)",
+              "forall(0, len(cnarr.data), lambda k: cnarr.data.start[k] < cnarr.data.end[k])"],
+    ensures=[
+        ("one_weight_per_bin", "len(result.data) == len(cnarr.data)"),
+        ("weights_are_numbers_within_bounds", "forall(0, len(result.data), lambda k: not isnull(result.data.weight[k]) and "
+                                              "0.0001 <= val(result.data.weight[k]) and val(result.data.weight[k]) <= 1)"),
+        ("bins_unchanged", "forall(0, len(result.data), lambda k: result.data.chromosome[k] == cnarr.data.chromosome[k] and "
+                           "result.data.start[k] == cnarr.data.start[k] and result.data.end[k] == cnarr.data.end[k] and "
+                           "result.data.gene[k] == cnarr.data.gene[k] and result.data.log2[k] == cnarr.data.log2[k])"),
+    ],
+    props=("C04",), domain="skip",
+    canaries=[("no_floor", "weights.clip(epsilon, 1.0)", "weights.clip(0, 1.0)"),
+              ("missing_variance_used", "    if not np.isnan(tgt_var):", "    if True:"),
+              ("no_usable_antitarget_not_skipped", "        if len(anti_ok):", "        if True:")],
+    notes="every path through the body (154, flat or pooled reference, with or without off-target bins, classes without a "
+          "usable bin): each bin gets a weight that is a number in [0.0001, 1] -- the missing-variance paths are the ones "
+          "repaired by fix 455995f; biweight_midvariance and residuals are assumed (NaN only for no data; an opaque vector)",
 )
